@@ -1,1 +1,4 @@
+pub mod ast;
+pub mod free;
+pub mod print;
 pub mod value;
